@@ -424,11 +424,21 @@ theorem htmlCount_eq_of_map {a b : List (Stage D E)} (h : a.map isHtml = b.map i
       cases isHtml x <;> simp [ih]
   rw [key, key, h]
 
+/-- A predicate `ES` on the stages that makes a failure inside `do_filter` harmless: it is kept by a successful call,
+and when a call fails the invariant still describes the chain before the chunk (the stages that had already consumed
+the chunk hold nothing). -/
+structure ErrSafe (tk : Tokenize) (ev : Bytes → Bytes → Bool) (codec : Codec D E) (ES : List (Stage D E) → Prop) : Prop where
+  ok : ∀ (items items' : List (Stage D E)) (x out : Bytes), AllPlain items → AllOK tk items → ES items →
+    doFilter tk ev codec items x = (items', some out) → ES items'
+  err : ∀ (items items' : List (Stage D E)) (x c e : Bytes), AllPlain items → AllOK tk items → ES items → Inv items c e →
+    doFilter tk ev codec items x = (items', none) →
+    AllPlain items' ∧ items'.map stageRel = items.map stageRel ∧ Inv items' c e
+
 /-- invariant of a running chain w.r.t. the input consumed `c` and the output emitted `e` so far -/
-structure CI (tk : Tokenize) (rels : List StreamRel) (ch : Chain D E) (c e : Bytes) : Prop where
+structure CI (tk : Tokenize) (ES : List (Stage D E) → Prop) (rels : List StreamRel) (ch : Chain D E) (c e : Bytes) : Prop where
   plain : AllPlain ch.items
   ok : ch.inError = false → AllOK tk ch.items
-  one : htmlCount ch.items ≤ 1
+  one : ch.inError = false → ES ch.items
   relsEq : ch.inError = false → ch.items.map stageRel = rels
   inv : if ch.inError then ∀ y, Comp rels (c ++ y) (e ++ y) else Inv ch.items c e
 
@@ -436,13 +446,56 @@ section
 variable {tk : Tokenize} (hl : Lossless tk) (ev : Bytes → Bytes → Bool) (codec : Codec D E)
 include hl
 
-theorem Chain.filter_CI (rels : List StreamRel) (ch : Chain D E) (c e x : Bytes) (h : CI tk rels ch c e) :
-    CI tk rels (ch.filter tk ev codec x).1 (c ++ x) (e ++ (ch.filter tk ev codec x).2) := by
+/-- `do_filter` never changes the kinds of the stages -/
+theorem doFilter_kinds : ∀ (items items' : List (Stage D E)) (x : Bytes) (r : Option Bytes),
+    AllPlain items → AllOK tk items → doFilter tk ev codec items x = (items', r) →
+    items'.map isHtml = items.map isHtml
+  | [], items', x, r, _, _, h => by
+    simp [doFilter] at h
+    rw [← h.1]
+  | st :: rest, items', x, r, hp, hok, h => by
+    rw [doFilter] at h
+    cases hf : st.filter tk ev codec x with
+    | none =>
+      simp only [hf] at h
+      injection h with h1 _
+      rw [← h1]
+    | some q =>
+      obtain ⟨st', o⟩ := q
+      simp only [hf] at h
+      obtain ⟨_, f2, _, _, _⟩ := Stage.filter_spec hl ev codec st st' x o (hp st (by simp)) (hok st (by simp)) hf
+      by_cases hemp : o.isEmpty = true
+      · rw [if_pos hemp] at h
+        injection h with h1 _
+        rw [← h1]
+        simp [f2]
+      · rw [if_neg hemp] at h
+        cases hr : doFilter tk ev codec rest o with
+        | mk rest' r' =>
+          rw [hr] at h
+          simp only at h
+          injection h with h1 _
+          rw [← h1]
+          have := doFilter_kinds rest rest' o r' (fun s hs => hp s (by simp [hs])) (fun s hs => hok s (by simp [hs])) hr
+          simp [f2, this]
+
+/-- at most one html stage is such a predicate -/
+theorem errSafe_one : ErrSafe tk ev codec (fun items : List (Stage D E) => htmlCount items ≤ 1) := by
+  constructor
+  · intro items items' x out hp hok hes hd
+    rw [htmlCount_eq_of_map (doFilter_kinds hl ev codec items items' x (some out) hp hok hd)]; exact hes
+  · intro items items' x c e hp hok hes hinv hd
+    obtain ⟨a1, a2, _, a3⟩ := doFilter_err hl ev codec items items' x c e hp hok hes hinv hd
+    exact ⟨a1, a2, a3⟩
+
+theorem Chain.filter_CI {ES : List (Stage D E) → Prop} (hes : ErrSafe tk ev codec ES) (rels : List StreamRel)
+    (ch : Chain D E) (c e x : Bytes) (h : CI tk ES rels ch c e) :
+    CI tk ES rels (ch.filter tk ev codec x).1 (c ++ x) (e ++ (ch.filter tk ev codec x).2) := by
   unfold Chain.filter
   cases herr : ch.inError with
   | true =>
     simp only [if_true]
-    refine ⟨h.plain, fun h' => by simp [herr] at h', h.one, fun h' => by simp [herr] at h', ?_⟩
+    refine ⟨h.plain, fun h' => by simp [herr] at h', fun h' => by simp [herr] at h', fun h' => by simp [herr] at h', ?_⟩
     have := h.inv
     simp only [herr, if_true] at this ⊢
     intro y
@@ -458,29 +511,30 @@ theorem Chain.filter_CI (rels : List StreamRel) (ch : Chain D E) (c e x : Bytes)
       | some out =>
         simp only
         obtain ⟨a1, a2, a3, a4, a5⟩ := doFilter_ok hl ev codec ch.items items' x out c e h.plain (h.ok herr) hinv hd
-        refine ⟨a1, fun _ => a2, by rw [htmlCount_eq_of_map a4]; exact h.one, fun _ => by rw [a3]; exact h.relsEq herr, ?_⟩
+        refine ⟨a1, fun _ => a2, fun _ => hes.ok _ _ _ _ h.plain (h.ok herr) (h.one herr) hd, fun _ => by rw [a3]; exact h.relsEq herr, ?_⟩
         simp only [herr, Bool.false_eq_true, if_false]
         exact a5
       | none =>
         simp only
-        obtain ⟨a1, a2, a2', a3⟩ := doFilter_err hl ev codec ch.items items' x c e h.plain (h.ok herr) h.one hinv hd
-        refine ⟨a1, fun h' => by simp at h', by rw [htmlCount_eq_of_map a2']; exact h.one, fun h' => by simp at h', ?_⟩
+        obtain ⟨a1, a2, a3⟩ := hes.err ch.items items' x c e h.plain (h.ok herr) (h.one herr) hinv hd
+        refine ⟨a1, fun h' => by simp at h', fun h' => by simp at h', fun h' => by simp at h', ?_⟩
         · simp only [if_true]
           intro y
           have := Inv.flush items' c e (x ++ y) a3
           rw [a2, h.relsEq herr] at this
           simpa [List.append_assoc] using this
 
-theorem Chain.feed_CI (rels : List StreamRel) : ∀ (xs : List Bytes) (ch : Chain D E) (c e : Bytes), CI tk rels ch c e →
-    CI tk rels (ch.feed tk ev codec xs).1 (c ++ xs.flatten) (e ++ (ch.feed tk ev codec xs).2.flatten)
+theorem Chain.feed_CI {ES : List (Stage D E) → Prop} (hes : ErrSafe tk ev codec ES) (rels : List StreamRel) :
+    ∀ (xs : List Bytes) (ch : Chain D E) (c e : Bytes), CI tk ES rels ch c e →
+    CI tk ES rels (ch.feed tk ev codec xs).1 (c ++ xs.flatten) (e ++ (ch.feed tk ev codec xs).2.flatten)
   | [], ch, c, e, h => by simpa [Chain.feed] using h
   | x :: xs, ch, c, e, h => by
-    have h1 := Chain.filter_CI hl ev codec rels ch c e x h
-    have h2 := Chain.feed_CI rels xs _ _ _ h1
+    have h1 := Chain.filter_CI hl ev codec hes rels ch c e x h
+    have h2 := Chain.feed_CI hes rels xs _ _ _ h1
     simp only [Chain.feed, List.flatten_cons]
     simpa [List.append_assoc] using h2
 
-theorem Chain.end_comp (rels : List StreamRel) (ch : Chain D E) (c e : Bytes) (h : CI tk rels ch c e) :
+theorem Chain.end_comp {ES : List (Stage D E) → Prop} (rels : List StreamRel) (ch : Chain D E) (c e : Bytes) (h : CI tk ES rels ch c e) :
     Comp rels c (e ++ (ch.end tk ev codec).2) := by
   unfold Chain.end
   cases herr : ch.inError with
@@ -501,28 +555,27 @@ theorem Chain.end_comp (rels : List StreamRel) (ch : Chain D E) (c e : Bytes) (h
 
 /-- For every chunking, the concatenated output of the chain (outputs of the `filter` calls, then `end`) is related to
 the concatenated input by the composition of the stage relations. -/
-theorem Chain.run_comp (rels : List StreamRel) (ch : Chain D E) (h : CI tk rels ch [] []) (cs : List Bytes) :
+theorem Chain.run_comp {ES : List (Stage D E) → Prop} (hes : ErrSafe tk ev codec ES) (rels : List StreamRel)
+    (ch : Chain D E) (h : CI tk ES rels ch [] []) (cs : List Bytes) :
     Comp rels cs.flatten (ch.run tk ev codec cs) := by
-  have h1 := Chain.feed_CI hl ev codec rels cs ch [] [] h
+  have h1 := Chain.feed_CI hl ev codec hes rels cs ch [] [] h
   have h2 := Chain.end_comp hl ev codec rels _ _ _ h1
   simpa [Chain.run, Chain.runOuts] using h2
 
 end
 
+theorem Inv_init : ∀ (items : List (Stage D E)), (∀ st ∈ items, held st = []) → Inv items [] []
+  | [], _ => rfl
+  | st :: rest, hheld => by
+    refine ⟨[], ?_, Inv_init rest fun s hs => hheld s (by simp [hs])⟩
+    rw [hheld st (by simp)]; exact (stageRel st).refl _
+
 /-- a freshly built plain chain satisfies the invariant -/
-theorem CI_init (tk : Tokenize) (items : List (Stage D E)) (hp : AllPlain items) (hok : AllOK tk items)
-    (hone : htmlCount items ≤ 1) (hheld : ∀ st ∈ items, held st = []) :
-    CI tk (items.map stageRel) { items := items } [] [] := by
-  refine ⟨hp, fun _ => hok, hone, fun _ => rfl, ?_⟩
+theorem CI_init (tk : Tokenize) (ES : List (Stage D E) → Prop) (items : List (Stage D E)) (hp : AllPlain items)
+    (hok : AllOK tk items) (hone : ES items) (hheld : ∀ st ∈ items, held st = []) :
+    CI tk ES (items.map stageRel) { items := items } [] [] := by
+  refine ⟨hp, fun _ => hok, fun _ => hone, fun _ => rfl, ?_⟩
   simp only [Bool.false_eq_true, if_false]
-  induction items with
-  | nil => rfl
-  | cons st rest ih =>
-    refine ⟨[], ?_, ih (fun s hs => hp s (by simp [hs])) (fun s hs => hok s (by simp [hs])) ?_ (fun s hs => hheld s (by simp [hs]))⟩
-    · rw [hheld st (by simp)]; exact (stageRel st).refl _
-    · have : htmlCount rest ≤ htmlCount (st :: rest) := by
-        simp only [htmlCount, List.filter]
-        cases isHtml st <;> simp
-      omega
+  exact Inv_init items hheld
 
 end Rio.Filter
